@@ -225,7 +225,11 @@ def flowOkAt (md : Module) (hm : HMap) (a : Nat) : Bool :=
         let t := ((a : Int) + 1 + i32 i.w0).toNat
         nextOk && (match hm[t]? with | some (some s') => s'.h + p == s.h + q | _ => false)
       else nextOk
-    | none => true
+    | none =>
+      if i.op == .JUMP then
+        let t := ((a : Int) + 1 + i32 i.w0).toNat
+        (match hm[t]? with | some (some s') => s'.h == s.h | _ => false)
+      else true
   | _, _ => true
 
 def flowOk (md : Module) (hm : HMap) : Bool := (List.range md.code.size).all (flowOkAt md hm)
